@@ -5,6 +5,7 @@ package main
 
 import (
 	"encoding/json"
+	"errors"
 	"fmt"
 	"os"
 
@@ -94,7 +95,7 @@ func main() {
 					d = map[int]float64{}
 				}
 				out.Data[id] = d
-			} else if !os.IsNotExist(err) {
+			} else if !errors.Is(err, os.ErrNotExist) {
 				out.Errs = append(out.Errs, fmt.Sprintf("data %q: %v", id, err))
 			}
 			if m, err := p.LoadFanPwmMap(id); err == nil {
@@ -102,7 +103,7 @@ func main() {
 					m = map[int]int{}
 				}
 				out.Maps[id] = m
-			} else if !os.IsNotExist(err) {
+			} else if !errors.Is(err, os.ErrNotExist) {
 				out.Errs = append(out.Errs, fmt.Sprintf("map %q: %v", id, err))
 			}
 		}
